@@ -145,6 +145,10 @@ class _GenShim:
         return getattr(self._real, n)
 
 
+_KIDS = [('k0', net.comp('k0')), ('k1', net.comp('k1')), ('k2', net.comp('k2')), ('k3', net.comp('k3')),
+         ('ops%2F2024', T.enc_tlv(8, b'ops/2024')), ('v=7', T.enc_tlv(54, b'\x07')), ('%00x', T.enc_tlv(8, b'\x00x'))]
+
+
 def nm(lst):
     return [net.comp(x) for x in lst]
 
@@ -520,8 +524,9 @@ def apply_op(w, model, st_, op):
         idn = ids[op['i'] % len(ids)]
         kw = {}
         if op.get('key_id') is not None:
-            kid = f'k{op["key_id"]}'
-            clash = next((kn for kn in model[idn]['keys'] if kn.endswith(net.comp(kid))), None)
+            # (a text key id is the URI form of the key-id component: escapes and typed forms included)
+            kid, kid_comp = _KIDS[op['key_id'] % len(_KIDS)]
+            clash = next((kn for kn in model[idn]['keys'] if kn.endswith(kid_comp)), None)
             if clash is not None:
                 # the id of an existing key: refused, and the existing key is untouched - its signer still signs with the private
                 # key that belongs to its public key
@@ -888,7 +893,7 @@ def _op():
         st.fixed_dictionaries({'op': st.just('touch_identity'), 'i': i}),
         st.fixed_dictionaries({'op': st.just('touch_identity'), 'i': i}),
         st.fixed_dictionaries({'op': st.just('new_key'), 'i': i, 'type': st.sampled_from(['ec', 'ec', 'ec', 'rsa']),
-                               'key_id': st.one_of(st.none(), st.integers(0, 3))}),
+                               'key_id': st.one_of(st.none(), st.integers(0, 3), st.integers(0, 6))}),
         st.fixed_dictionaries({'op': st.just('new_key'), 'i': i, 'type': st.just('ec'), 'key_id': st.none(), 'via_handle': st.just(True)}),
         st.fixed_dictionaries({'op': st.just('import_cert'), 't': i, 'n': st.integers(0, 3),
                                'odd': st.sampled_from([None, None, 'default', 'default', 'plain'])}),
